@@ -1,5 +1,3 @@
-from math import floor
-
 import numpy as np
 
 
@@ -380,7 +378,7 @@ class Position(object):
             )
 
         # Nothing to do if the transaction has no quantity
-        if int(floor(transaction.quantity)) == 0:
+        if transaction.quantity == 0:
             return
 
         # Depending upon the direction of the transaction
